@@ -138,11 +138,16 @@ pub fn run(args: &Args) -> SubResult {
                 res.evaluations += 1;
             }};
         }
-        match front {
+        // a panic out of the cache ("wrong handle type", ...) is an observation, not a crash of the checker
+        let r = std::panic::catch_unwind(std::panic::AssertUnwindSafe(|| match front {
             "typed" => body!(AssetCache::without_hot_reloading(src), false),
             "hot" => body!(AssetCache::with_source(src), false),
             "any" => body!(AssetCache::without_hot_reloading(src), true),
             _ => body!(LocalAssetCache::with_source(src), false),
+        }));
+        if let Err(e) = r {
+            let msg = e.downcast_ref::<String>().cloned().or_else(|| e.downcast_ref::<&str>().map(|s| s.to_string())).unwrap_or_default();
+            res.violation(format!("c02_shards:panic:{front}"), format!("{cpus} CPUs: the cache panicked during the history: {msg}"), what.clone());
         }
         if res.samples.len() < 3 {
             res.sample(json!({"front": front, "cpus": cpus, "keys": 2 * k, "steps": ["insert", "remove/take each", "reinsert", "clear"]}));
